@@ -9,7 +9,7 @@ from . import common
 
 RULE = ("cases: (planar graph, trace incl. length 1 / outliers at index 0, 1, middle, last / gaps, any configuration, unique flag); "
         "non-trivial = non-empty result; classes: where the match stopped, unique, non-emitting state on the path; distinct = case JSON")
-ASSUMPTIONS = ["planar metric, InMemMap; graphs <= 12 nodes, traces <= 12 points",
+ASSUMPTIONS = ["planar metric, InMemMap; graphs <= 12 nodes, traces <= 12 points; plus long roads (10-24 nodes, >= 3 non-emitting states on the path) and one case in 200 with 30-40 observations and > 100 non-emitting states on the path; matcher.non_emitting_states_maxnb varied",
                "a trailing run of non-emitting states after the last emitting state (documented behaviour after an early stop) is accepted",
                "the 'empty iff no admissible start' clause uses an independent full scan; cases where open finding F1 can hide a start "
                "candidate are excluded from that clause only, and counted"]
